@@ -67,6 +67,11 @@ def run_mutant(m):
             return dict(name=m["name"], property=m["property"], outcome="mutant-broken", detail=err)
         rc, out = run_check(d, m["property"])
         expect = m.get("expect", "")
+        if m.get("benign"):
+            # behaviour-preserving edit: the check must stay silent
+            quiet = rc == 0 and "VIOLATION" not in out
+            return dict(name=m["name"], property=m["property"], outcome="detected" if quiet else "FALSE-ALARM", rc=rc,
+                        detail=[l for l in out.splitlines() if l.startswith("  ") or "BROKEN" in l][:6])
         hit = rc == 1 and "VIOLATION property=%s" % m["property"] in out and (expect in out)
         return dict(name=m["name"], property=m["property"], outcome="detected" if hit else "MISSED",
                     rc=rc, expect=expect,
@@ -83,12 +88,13 @@ def run_for(prop=None, sub=None, jobs=4):
 
 
 def main(tier="quick"):
-    prop = sys.argv[1] if len(sys.argv) > 1 and sys.argv[1] != "selftest" else None
+    prop = sys.argv[1] if len(sys.argv) > 1 and sys.argv[1] not in ("selftest", "", "all") else None
     sub = sys.argv[2] if len(sys.argv) > 2 else None
     res = run_for(prop, sub)
     bad = 0
     for r in res:
-        print("%-8s %-40s %s" % (r["property"], r["name"], r["outcome"]))
+        print("%-8s %-40s %s" % (r["property"], r["name"], r["outcome"] if not r["name"].startswith("benign") else
+                                 {"detected": "silent (ok)"}.get(r["outcome"], r["outcome"])))
         if r["outcome"] != "detected":
             bad += 1
             print("     ", r.get("rc"), r.get("detail"))
